@@ -47,9 +47,12 @@ def rule_H1(ctx, sm):
                   'larger than two may be halved', ctx.where(sm, wh),
                   sample={'n': n, 'halvable': halv[n]})
     body = [ast.unparse(s).replace(' ', '') for s in wh.body]
+    from ..core.template import find as _find, has as _has
+    cnt = _find('_c_[_i_] += 1', wh)
+    cl = cnt[0][1]['_c_'] if cnt else 'clevel'
     ok = len(body) == 2 and any(b in (f'{v}/=2', f'{v}//=2', f'{v}={v}/2',
                                       f'{v}={v}//2') for b in body) and \
-        any(b.endswith('+=1') and b.startswith('clevel[') for b in body)
+        len(cnt) == 1
     ctx.check('C05.H1.halvable', '_max_level loop body', ok,
               f'halving loop body is {body}: it must count one level and '
               'halve the cell number', ctx.where(sm, wh))
@@ -94,13 +97,15 @@ def rule_H1(ctx, sm):
                isinstance(s, ast.Assign) and ast.unparse(s.value) ==
                'self.clevel' for s in n.body)]
     ctx.anchor(len(lim) == 1, 'user clevel limit in _max_level')
+    lst = [s for s in lim[0].body if isinstance(s, ast.Assign)][0]
+    ivar = ast.unparse(lst.targets[0].slice)
     for user in (-1, 0, 1, 2, 5):
         for auto in (0, 1, 3):
-            fe = FiniteEval({'self.clevel': user, 'clevel': [auto] * 3,
-                             'i': 0}, where=sm.rel)
+            fe = FiniteEval({'self.clevel': user, cl: [auto] * 3,
+                             ivar: 0}, where=sm.rel)
             fe.run([lim[0]])
-            got = fe.env['clevel'][0] if 'clevel[i]' not in fe.env \
-                else fe.env['clevel[i]']
+            key = f'{cl}[{ivar}]'
+            got = fe.env[cl][0] if key not in fe.env else fe.env[key]
             want = auto if user < 0 else min(user, auto)
             ctx.check('C05.H1.limit', f'_max_level limit user={user} '
                       f'auto={auto}', got == want,
@@ -177,22 +182,49 @@ class _TableCtx:
         pass
 
 
+class MGNames:
+    """Local names of multigrid() derived from anchors (not literals)."""
+    def __init__(self, ctx, sm):
+        from ..core.template import find
+        mg = sm.func('multigrid')
+        f = find("_l_ = kwargs.get('level', 0)", mg)
+        g = find("_n_ = kwargs.get('new_cycmax', 0)", mg)
+        ctx.anchor(len(f) == 1 and len(g) == 1, 'level / new_cycmax keyword '
+                   'arguments of multigrid()')
+        self.level, self.newc = f[0][1]['_l_'], g[0][1]['_n_']
+        wh = [n for n in ast.walk(mg) if isinstance(n, ast.While)]
+        ctx.anchor(len(wh) == 1, 'cycle loop in multigrid()')
+        cmp_ = [c for c in ast.walk(wh[0].test) if isinstance(c, ast.Compare)
+                and isinstance(c.ops[0], ast.Lt) and isinstance(
+                    c.left, ast.Name) and isinstance(c.comparators[0],
+                                                     ast.Name)]
+        ctx.anchor(len(cmp_) == 1, '`it < cycmax` in the cycle loop test')
+        self.it, self.cycmax = cmp_[0].left.id, cmp_[0].comparators[0].id
+        rec = [c for c in au.calls(mg, 'multigrid')]
+        ctx.anchor(len(rec) == 1, 'recursive call in multigrid()')
+        kw = {k.arg: k.value for k in rec[0].keywords}
+        nc = kw.get('new_cycmax')
+        self.cyc = nc.right.id if isinstance(nc, ast.BinOp) and isinstance(
+            nc.right, ast.Name) else 'cyc'
+
+
 def rule_H3(ctx, sm):
     mg = sm.func('multigrid')
     ps = au.params(mg)
     var = ps[3]
+    N = MGNames(ctx, sm)
     rec = [c for c in au.calls(mg, 'multigrid')]
     ctx.anchor(len(rec) == 1, 'exactly one recursive call in multigrid()')
     c = rec[0]
     kws = {k.arg: ast.unparse(k.value).replace(' ', '') for k in c.keywords}
     ctx.check('C05.H3.ranking', 'multigrid recursive call: level',
-              kws.get('level') in ('level+1', '1+level'),
+              kws.get('level') in (f'{N.level}+1', f'1+{N.level}'),
               f'recursive call passes level={kws.get("level")}; the recursion '
               'is ranked only if it passes level+1', ctx.where(sm, c),
               sample={'keywords': kws})
     gs = au.guards_of(c, mg)
     bottom = [(t, pol) for t, pol in gs if ast.unparse(t).replace(' ', '')
-              == f'level=={var}.clevel[{var}.sc_dir]']
+              == f'{N.level}=={var}.clevel[{var}.sc_dir]']
     ctx.check('C05.H3.ranking', 'multigrid recursive call: bottom guard',
               len(bottom) == 1 and bottom[0][1] is False,
               'the recursive call is not confined to levels above the '
@@ -213,7 +245,7 @@ def rule_H3(ctx, sm):
     tests = [ast.unparse(n.test).replace(' ', '') for n in ast.walk(mg)
              if isinstance(n, ast.If)]
     ctx.check('C05.H3.ranking', 'multigrid bottom predicate used twice',
-              tests.count(f'level=={var}.clevel[{var}.sc_dir]') == 2,
+              tests.count(f'{N.level}=={var}.clevel[{var}.sc_dir]') == 2,
               'the coarsest-level predicate is not the same in the cycle '
               'setup and in the cycle body', ctx.where(sm, mg))
     # single writers of clevel / sc_dir / lr_dir
@@ -246,6 +278,8 @@ def rule_H4_H5(ctx, sm):
     mg = sm.func('multigrid')
     ps = au.params(mg)
     var = ps[3]
+    N = MGNames(ctx, sm)
+    L = N.level
     cfg = CFG(mg)
     prune = level0_prune(cfg, mg)
     for cyc in ('sc_cycle', 'lr_cycle'):
@@ -261,8 +295,8 @@ def rule_H4_H5(ctx, sm):
         st = au.enclosing_stmt(sites[0])
         gs = au.guards_of(st, mg)
         lvl = [(ast.unparse(t).replace(' ', ''), pol) for t, pol in gs]
-        at0 = ('level>0', False) in lvl or ('level==0', True) in lvl
-        guard_ok = all(t in ('level>0', 'level==0', f'{var}.{cyc}')
+        at0 = (f'{L}>0', False) in lvl or (f'{L}==0', True) in lvl
+        guard_ok = all(t in (f'{L}>0', f'{L}==0', f'{var}.{cyc}')
                        for t, _ in lvl)
         ctx.check('C05.H4.once', f'multigrid: next({var}.{cyc}) at level 0',
                   at0 and guard_ok, f'advance of {cyc} is guarded by {lvl}: '
@@ -279,7 +313,7 @@ def rule_H4_H5(ctx, sm):
                'residual(' in ast.unparse(n.value) and au.enclosing(
                    n, ast.While) is wh and au.guards_of(n, mg)[-1:] ==
                [g for g in gs if ast.unparse(g[0]).replace(' ', '') in (
-                   'level>0', 'level==0')][-1:]]
+                   f'{L}>0', f'{L}==0')][-1:]]
         term = [n for n in ast.walk(mg) if isinstance(n, ast.If) and
                 '_terminate(' in ast.unparse(n.test)]
         ok = bool(res) and len(term) == 1 and \
@@ -306,24 +340,27 @@ def rule_H4_H5(ctx, sm):
     wh = whs[0]
     conts = [n for n in ast.walk(wh) if isinstance(n, ast.Continue)]
     incs = [s for s in wh.body if isinstance(s, ast.AugAssign) and
-            ast.unparse(s).replace(' ', '') == 'it+=1']
+            ast.unparse(s).replace(' ', '') == f'{N.it}+=1']
     ctx.check('C05.H5.progress', 'multigrid: it += 1 on every path',
               len(incs) == 1 and not conts, 'the local cycle counter is not '
               'advanced unconditionally once per iteration',
               ctx.where(sm, wh))
     cond = ast.unparse(wh.test).replace(' ', '')
     ctx.check('C05.H5.progress', 'multigrid: loop condition',
-              cond in ('level==0or(level>0andit<cycmax)',
-                       'level==0orlevel>0andit<cycmax',
-                       'level==0orit<cycmax'),
+              cond in (f'{L}==0or({L}>0and{N.it}<{N.cycmax})',
+                       f'{L}==0or{L}>0and{N.it}<{N.cycmax}',
+                       f'{L}==0or{N.it}<{N.cycmax}'),
               f'cycle loop condition `{ast.unparse(wh.test)}` does not bound '
               'coarse-level cycles by cycmax', ctx.where(sm, wh))
     term = sm.func('_terminate')
     tps = au.params(term)
     arms = [n for n in ast.walk(term) if isinstance(n, ast.If) and
             ast.unparse(n.test).replace(' ', '') == f'{tps[3]}=={tps[0]}.maxit']
+    trets = [n for n in ast.walk(term) if isinstance(n, ast.Return)]
+    fin = trets[0].value.id if len(trets) == 1 and isinstance(
+        trets[0].value, ast.Name) else 'finished'
     ok = len(arms) == 1 and any(ast.unparse(s).replace(' ', '') ==
-                                'finished=True' for s in arms[0].body)
+                                f'{fin}=True' for s in arms[0].body)
     ctx.check('C05.H5.progress', '_terminate: maxit arm finishes', ok,
               'reaching maxit does not finish the iteration',
               ctx.where(sm, term))
@@ -331,7 +368,7 @@ def rule_H4_H5(ctx, sm):
     vit = [n for n in ast.walk(wh) if isinstance(n, ast.AugAssign) and
            ast.unparse(n.target) == f'{var}.it']
     ok = len(vit) == 1 and [ast.unparse(t).replace(' ', '') for t, p in
-                            au.guards_of(vit[0], mg) if p] == ['level==0']
+                            au.guards_of(vit[0], mg) if p] == [f'{L}==0']
     ctx.check('C05.H5.progress', 'multigrid: global counter at level 0', ok,
               'global iteration counter is not advanced exactly at level 0',
               ctx.where(sm, wh))
@@ -351,14 +388,17 @@ def rule_H6_H7(ctx, sm):
               kv.get('clevel') in used and len(used) == 1,
               f'header prints `{kv.get("clevel")}` but the level table is '
               f'built from {sorted(used)}', ctx.where(sm, d[0]))
-    for a, nm in enumerate(('sx', 'sy', 'sz')):
-        st = [n for n in ast.walk(ml) if isinstance(n, ast.Assign) and
-              ast.unparse(n.targets[0]) == nm]
-        ok = len(st) == 1 and ast.unparse(st[0].value).replace(' ', '') == \
-            f'int(self.shape_cells[{a}]/2**clevel[{a}])'
-        ctx.check('C05.H6.header', f'printed coarsest cells {nm}', ok,
-                  'printed coarsest grid is not shape / 2**level',
-                  ctx.where(sm, ml))
+    from ..core.template import find as _find2
+    src_name = sorted(used)[0] if used else 'clevel'
+    shp = kv.get('shape_cells', '')
+    names = [x.strip() for x in shp.strip('()').split(',')] if shp else []
+    for a in range(3):
+        nm = names[a] if len(names) == 3 else '?'
+        st = _find2(f'{nm} = int(self.shape_cells[{a}] / 2 ** '
+                    f'{src_name}[{a}])', ml)
+        ctx.check('C05.H6.header', f'printed coarsest cells axis {a}',
+                  len(st) == 1, 'printed coarsest grid is not '
+                  'shape / 2**level', ctx.where(sm, ml))
     rp = sm.method('MGParameters', '__repr__')
     txt = ast.unparse(rp)
     ctx.check('C05.H6.header', '__repr__ prints the coarsest level',
@@ -383,19 +423,20 @@ def rule_H6_H7(ctx, sm):
     mg = sm.func('multigrid')
     ps = au.params(mg)
     var = ps[3]
+    N = MGNames(ctx, sm)
     first = [n for n in mg.body if isinstance(n, ast.If) and any(
-        isinstance(s, ast.Assign) and ast.unparse(s.targets[0]) == 'cycmax'
+        isinstance(s, ast.Assign) and ast.unparse(s.targets[0]) == N.cycmax
         for s in ast.walk(n))]
     ctx.anchor(len(first) == 1, 'cycmax hand-over chain in multigrid')
     for bottom in (True, False):
         for cyc in ('F', 'V', 'W'):
             for newc in (0, 1, 2):
-                env = {'level': 1 if bottom else 0,
-                       f'{var}.clevel[{var}.sc_dir]': 1, 'new_cycmax': newc,
+                env = {N.level: 1 if bottom else 0,
+                       f'{var}.clevel[{var}.sc_dir]': 1, N.newc: newc,
                        f'{var}.cycle': cyc, f'{var}.cycmax': 7}
                 fe = FiniteEval(env, where=sm.rel)
                 fe.run([first[0]])
-                got = fe.env.get('cycmax')
+                got = fe.env.get(N.cycmax)
                 want = 1 if bottom else (
                     newc if (cyc == 'F' and newc != 0) else 7)
                 ctx.check('C05.H7.cycmax', f'multigrid cycmax bottom={bottom} '
@@ -405,15 +446,15 @@ def rule_H6_H7(ctx, sm):
     rec = au.calls(mg, 'multigrid')[0]
     kws = {k.arg: ast.unparse(k.value).replace(' ', '') for k in rec.keywords}
     ctx.check('C05.H7.cycmax', 'multigrid: remaining cycles handed down',
-              kws.get('new_cycmax') == 'cycmax-cyc',
+              kws.get('new_cycmax') == f'{N.cycmax}-{N.cyc}',
               f'new_cycmax={kws.get("new_cycmax")}; F-cycles hand the '
               'remaining number of cycles (cycmax - cyc) to the next level',
               ctx.where(sm, rec))
     whs = [n for n in ast.walk(mg) if isinstance(n, ast.While)][0]
     cy = [n for n in ast.walk(whs) if isinstance(n, ast.AugAssign) and
-          ast.unparse(n).replace(' ', '') == 'cyc+=1']
+          ast.unparse(n).replace(' ', '') == f'{N.cyc}+=1']
     ok = len(cy) == 1 and [ast.unparse(t).replace(' ', '') for t, p in
-                           au.guards_of(cy[0], mg) if p] == ['level>0']
+                           au.guards_of(cy[0], mg) if p] == [f'{N.level}>0']
     ctx.check('C05.H7.cycmax', 'multigrid: cyc advanced on coarse levels',
               ok, 'coarse-level cycle counter is not advanced once per '
               'coarse cycle', ctx.where(sm, whs))
